@@ -211,17 +211,21 @@ def flush_related(detail):
 
 
 def confirm(scratch, inp, idx, g, sc):
-    """Re-run one script with a longer idle window; True if still rejected."""
+    """Re-run one script with longer idle windows (quiescence is a timing judgement and the machine may
+    be busy); True only if it is rejected every time."""
     one = dict(inp, scripts=[inp["scripts"][idx]])
     f = os.path.join(scratch, "confirm.json")
     o = os.path.join(scratch, "confirm-out.json")
     json.dump(one, open(f, "w"))
-    res = vlib.run_shards("connsched", lambda i, n: ["-in", f, "-out", o, "-quiet", "100ms"], nshard=1)
-    if res[0][0] != 0:
-        raise Inconclusive("connsched failed on confirmation: " + res[0][2][-800:])
-    r = json.load(open(o))[0]
-    ok, _, _ = g.accepts(sc, r["obs"])
-    return (not ok) or bool(r.get("monitor"))
+    for quiet in ("100ms", "400ms", "1200ms"):
+        res = vlib.run_shards("connsched", lambda i, n: ["-in", f, "-out", o, "-quiet", quiet], nshard=1)
+        if res[0][0] != 0:
+            raise Inconclusive("connsched failed on confirmation: " + res[0][2][-800:])
+        r = json.load(open(o))[0]
+        ok, _, _ = g.accepts(sc, r["obs"])
+        if ok and not r.get("monitor"):
+            return False
+    return True
 
 
 def replay(path):
